@@ -6,7 +6,9 @@ ASSUMPTIONS = [
     "A3: Python semantics as modelled by the path walk (RHS before store, try/except/else/finally, generator "
     "context managers); exception sources modelled: explicit raise, db-like subscripts, sorted-set subscripts, "
     "tabled external callees, tabled container methods",
-    "A4: no monkey-patching / subclass overriding of the analysed classes",
+    "A4: no monkey-patching / subclass overriding of the analysed classes from outside the package; inside the package both are checked "
+    "(module-level statements other than imports / defs / classes / plain bindings, rebinding defs, overriding subclasses, untabled "
+    "decorators, global / nonlocal: the run fails closed, exit 2); no default argument is a shared mutable container (MUTDEF, every property)",
 ]
 
 # id -> (decided clauses, not decided, technique)
@@ -66,7 +68,8 @@ DOC = {
             "(EXC2); constructor-argument provenance of the Missing* exceptions incl. the consumed prefix (EXC3); a child is fetched only "
             "when the key continues into it (READPATH); no fallible read follows a write that may have taken effect (ORD2); pruning "
             "applied on success only and the pending set reset on all exits (ORD3); _PartialTraversal never escapes (EXC4); every payload "
-            "accessor of the Missing* exceptions reads the slot its constructor fills from the same-named argument (EXCACC)",
+            "accessor of the Missing* exceptions reads the slot its constructor fills from the same-named argument (EXCACC); an aborted batch "
+            "leaves nothing behind in the outer trie: the batch is handed no mutable outer state, `a and b` counted by every operand (AL2, ADOPT)",
             "convergence of retry loops",
             "exception-flow analysis; provenance of constructor arguments by symbolic terms; read/write ordering"),
     "C08": ("decision tables of _traverse_extension and of one hop of _traverse_from, (Kind, Len) summary: a non-empty residual only with "
@@ -114,7 +117,7 @@ DOC = {
             "calc_root (SIB5); returned hashes are root->leaf (PROV10); reads precede writes in set (ORD2); blank reads as KeyError in get "
             "and branch alike (SIB12); dunders / exists (SIB1); db[keccak(n)] = n (EFF3); readers keep no state (EFF4, RSRC); the empty tree is "
             "depth levels folded up from the default leaf (SMTINIT); the leaf written by set is the given value, calc_root starts at "
-            "keccak(value) (PROV10, SIB5); defaults by value (DEFAULTS); from_db passes its configuration on (FWD)",
+            "keccak(value) (PROV10, SIB5); defaults by value (DEFAULTS); from_db passes its configuration on (FWD); the value _get hands back is the db entry under the leaf hash itself (PROV10 leaf-read)",
             "Merkle-root equality with the full tree",
             "provenance; sibling agreement; def-use binding; effect summaries"),
     "C15": ("the shortness check dominates the only branch write and is the exact bound len(node_updates) <= branch_point (ORD6, REL2); "
@@ -128,7 +131,7 @@ DOC = {
             "classifiers agree on every node shape, leaf/extension key duals (SIB8); nibble tables and the range / parity refusals of "
             "nibbles_to_bytes (PROV9); bit order of encode_to_bin / decode_from_bin (weights 128..1, set bit written as 1) and the header "
             "layout of the key-path packing over the finite case split, the header choice evaluated for padded lengths 0..28 (SIB7b); type bytes "
-            "and flags by value (DEFAULTS); validators and encoder guards as tables (VALTAB); parse_node also refuses b'' and None (EXC6); the key-path reader refuses nothing the writer produces: no length bound the writer lacks (SIB7b)",
+            "and flags by value (DEFAULTS); validators and encoder guards as tables (VALTAB); parse_node also refuses b'' and None (EXC6); the key-path reader refuses nothing the writer produces: no length bound the writer lacks (SIB7b); building a refusal message cannot fail first: format conversions match their operands (VALMSG)",
             "arithmetic of the packing beyond the case split (arbitrary lengths are covered by the length-mod-4 x padded-length-mod-8 split)",
             "abstract evaluation of path conditions on finite grids; writer/reader layout comparison"),
     "C17": ("the wrapped db is written only on the resumed-normally outcome of the yield, the exception outcome re-raises, the cache is "
